@@ -1063,6 +1063,8 @@ class FuncGraph:
             ret = self.mk('gamma', (self.nondet(s, 'loop-return'), ret_b, FALL), s)
         env.clear()
         env.update(out)
+        if kind == 'for' and not loop.breaks and ret_b is FALL and not s.orelse:
+            self._summarise_block_accumulation(loop, env, s)
         if s.orelse:
             env_e, ret_e = self.block(s.orelse, env)
             if ret_e is not FALL:
@@ -1079,6 +1081,87 @@ class FuncGraph:
         if ret is FALL:
             return None
         return ('branch', self.nondet(s, 'loop-return'), None, ret, env, FALL)
+
+    def _summarise_block_accumulation(self, loop, env, s):
+        """acc = np.zeros(...); for start in range(0, n, b): acc += np.einsum('...dn,...Dn->...dD', x[..., start:start + b], conj(x[..., start:start + b]))
+        is  acc = np.einsum('...dn,...Dn->...dD', x, conj(x))  when the sliced axis is the one that is summed over and the blocks cover it (folded, as for R-COVER): a sum over an
+        axis taken block by block.  The name denotes the whole contraction after the loop; the accumulation is then not recorded as a construct that is not followed."""
+        for k, mu in loop.mus.items():
+            if env.get(k) is not mu or not isinstance(mu.next, T):
+                continue
+            init = mu.args[0]
+            if not (isinstance(init, T) and init.op == 'call' and init.args[0].op == 'ref' and isinstance(init.args[0].args[0], Lib) and init.args[0].args[0].dotted in ('numpy.zeros', 'numpy.zeros_like')):
+                continue
+            nx = mu.next
+            if not (nx.op in ('iop', 'binop') and nx.args[0] == 'Add'):
+                continue
+            E = nx.args[2] if nx.args[1] is mu else (nx.args[1] if nx.args[2] is mu else None)
+            if E is None or not (E.op == 'call' and E.args[0].op == 'ref' and isinstance(E.args[0].args[0], Lib) and E.args[0].args[0].dotted == 'numpy.einsum' and not E.args[2]
+                                 and len(E.args[1]) >= 2 and E.args[1][0].op == 'const' and isinstance(E.args[1][0].args[0], str) and '->' in E.args[1][0].args[0]):
+                continue
+            lhs, rhs = E.args[1][0].args[0].replace(' ', '').split('->')
+            specs = lhs.split(',')
+            ops = list(E.args[1][1:])
+            if len(specs) != len(ops) or any(o.op == 'star' for o in ops):
+                continue
+
+            def in_loop(t_):
+                return any((y.op == 'elem' and getattr(y, 'extra', None) is loop) or (y.op == 'mu' and isinstance(y.extra, tuple) and y.extra and y.extra[0] is loop)
+                           for y in walk_terms(t_, into_mu=False))
+            block_slice, letter, new_ops, ok = None, None, [], True
+            for sp, o in zip(specs, ops):
+                conj = False
+                core = o
+                if core.op == 'call' and not core.args[2] and len(core.args[1]) == 1 and core.args[0].op == 'ref' and isinstance(core.args[0].args[0], Lib) \
+                        and core.args[0].args[0].dotted in ('numpy.conj', 'numpy.conjugate'):
+                    conj, core = True, core.args[1][0]
+                if not in_loop(core):
+                    new_ops.append(o)
+                    continue
+                if not (core.op == 'sub' and core.args[1].op == 'tuple' and not in_loop(core.args[0]) and sp.startswith('...')):
+                    ok = False
+                    break
+                its = core.args[1].args[0]
+                if not (its and its[0].op == 'const' and its[0].args[0] is Ellipsis):
+                    ok = False
+                    break
+                letters = sp.replace('...', '')
+                trailing = its[1:]
+                if len(trailing) > len(letters) or not all(x.op == 'slice' for x in trailing):
+                    ok = False
+                    break
+                sliced = [(i, x) for i, x in enumerate(trailing) if not all(y.op == 'const' and y.args[0] is None for y in x.args)]
+                if len(sliced) != 1:
+                    ok = False
+                    break
+                i_, sl = sliced[0]
+                c = letters[len(letters) - len(trailing) + i_]
+                same = block_slice is None or (sl is block_slice) or all((a is b) or (a.op == 'const' and b.op == 'const' and a.args[0] == b.args[0]) for a, b in zip(sl.args, block_slice.args))
+                if not same or (letter is not None and c != letter):
+                    ok = False
+                    break
+                block_slice, letter = sl, c
+                whole = core.args[0]
+                new_ops.append(self._libcall('numpy.conj', (whole,), s) if conj else whole)
+            if not ok or block_slice is None or letter in rhs:
+                continue
+            # every operand that carries the summed letter must be sliced (an unsliced one would be counted once per block)
+            if any(letter in sp.replace('...', '') and not in_loop(o) for sp, o in zip(specs, ops)):
+                continue
+            try:
+                from .opt import block_partition_verdict
+                verdict = block_partition_verdict(loop.iter, block_slice)
+            except Exception:
+                verdict = None
+            if verdict is None or verdict[0] != 'full':
+                continue
+            total = self.mk('call', (E.args[0], (E.args[1][0],) + tuple(new_ops), ()), E.node)
+            self.event('call', total, E.node)
+            self.bind(k, total, env, s)
+            nf = self.__dict__.get('not_followed')
+            if nf:
+                line = getattr(getattr(nx, 'node', None), 'lineno', None)
+                self.__dict__['not_followed'] = [(kind_, ln) for kind_, ln in nf if not (kind_ == 'result accumulated over blocks of an axis' and ln == line)]
 
     def st__UnrolledStep(self, s, env):
         self._assign_display(s.target, s.item, env, s.origin)
@@ -3562,20 +3645,20 @@ class FuncGraph:
                 return None
             return t.args[0], [is_full(x) for x in items[1:]]
 
-        def factors(t, labels, conj, out, depth=0):
+        def factors(t, labels, conj, out, depth=0, in_mult=False, named=False):
             # decompose t (trailing axes named by `labels`) into [(base term, letters of its trailing axes, conjugated?)]; False when a factor cannot be named
             if depth > 8:
                 return False
             if t.op == 'binop' and t.args[0] == 'Mult':
-                return factors(t.args[1], labels, conj, out, depth + 1) and factors(t.args[2], labels, conj, out, depth + 1)
+                return factors(t.args[1], labels, conj, out, depth + 1, True, False) and factors(t.args[2], labels, conj, out, depth + 1, True, False)
             if t.op == 'call' and not t.args[2] and len(t.args[1]) == 1 and t.args[0].op == 'ref' and isinstance(t.args[0].args[0], Lib) \
                     and t.args[0].args[0].dotted in ('numpy.conj', 'numpy.conjugate'):
-                return factors(t.args[1][0], labels, not conj, out, depth + 1)
+                return factors(t.args[1][0], labels, not conj, out, depth + 1, in_mult, named)
             if t.op == 'call' and not t.args[1] and not t.args[2] and t.args[0].op == 'attr' and t.args[0].args[1] in ('conj', 'conjugate') and t.args[0].args[0].op != 'ref':
-                return factors(t.args[0].args[0], labels, not conj, out, depth + 1)
+                return factors(t.args[0].args[0], labels, not conj, out, depth + 1, in_mult, named)
             sw = self._last_two_swapped(t)
             if sw is not None and len(labels) >= 2:
-                return factors(sw, labels[:-2] + [labels[-1], labels[-2]], conj, out, depth + 1)
+                return factors(sw, labels[:-2] + [labels[-1], labels[-2]], conj, out, depth + 1, in_mult, True)          # (swapping the last two axes needs two axes: named)
             pt = pattern(t)
             if pt is not None:
                 base, kept = pt
@@ -3584,9 +3667,11 @@ class FuncGraph:
                 sub_labels = [l for l, k in zip(labels, kept) if k]
                 if not sub_labels:
                     return False
-                return factors(base, sub_labels, conj, out, depth + 1)
+                return factors(base, sub_labels, conj, out, depth + 1, in_mult, True)
             if t.op in ('const',):
                 return False
+            if in_mult and not named:
+                return False          # a bare factor of a product may have fewer axes than the product (a broadcast weight): its letters are not known
             out.append((t, ''.join(labels), conj))
             return True
 
@@ -3610,11 +3695,13 @@ class FuncGraph:
                 return width(sw, depth + 1)
             return 0
         wa, wb = width(a), width(b)
-        if -1 in (wa, wb) or max(wa, wb) < 3 or (wa and wb and wa != wb) or max(wa, wb) > 4:
+        if -1 in (wa, wb) or max(wa, wb) < 2 or (wa and wb and wa != wb) or max(wa, wb) > 4:
             return None
         n = max(wa, wb)
-        if not wa or not wb:
+        if n >= 3 and (not wa or not wb):
             return None          # one side without explicit unit axes: how its batch axes line up with the other side is not written down
+        if n == 2 and not ((a.op == 'binop' and a.args[0] == 'Mult') or (b.op == 'binop' and b.args[0] == 'Mult')):
+            return None          # plain A @ B without weights: left to the forms below / to the rules that read `@`
         batch = ['b', 'c'][:n - 2]
         fa, fb = [], []
         if not factors(a, batch + ['i', 'j'], False, fa) or not factors(b, batch + ['j', 'k'], False, fb):
